@@ -73,14 +73,16 @@ def suite_ops(ctx, case):
                     if op.get('zeros_then_fill'):
                         o = MatrixArray(length=L, rank=n, space=SP[op['sp']], types=types); o.data[:] = data
                     else:
-                        o = MatrixArray(length=L, rank=n, data=data.copy(), space=SP[op['sp']], types=types)
+                        o = MatrixArray(length=L, rank=n, data=(data.astype(int) if op.get('intdata') else data.copy()), space=SP[op['sp']], types=types)
                 objs.append(o); shadow.append((data.copy(), op['sp']))
                 line = 'ma.new %d %d %s %s' % (L, n, op['sp'], fl(data.reshape(-1)))
             elif k == 'binop':
                 A = objs[op['k']]; L, n = A.length, A.rank
+                if op['rhs'][0] == 'full': L = len(op['rhs'][1]) // (n * n)          # the right operand may span more grid points than a length-1 left one
                 rhs = rhs_py(objs, op['rhs'], L, n)
                 if op['rhs'][0] == 'obj':
                     exp_refused = not space_ok(shadow[op['k']][1], shadow[op['rhs'][1]][1])
+                if op.get('shortleft') and op['inplace']: exp_refused = True
                 line = 'ma.binop %s %d %d %s' % (op['f'], op['k'], 1 if op['inplace'] else 0, rhs_line(op['rhs']))
                 sd = OPS[op['f']][0](shadow[op['k']][0], rhs_shadow(shadow, op['rhs'], L, n))
                 if op['inplace']:
@@ -241,6 +243,46 @@ def gen_case(rng, max_ops, maxL):
             if i < n: meta[k][2] += 1
     return {'ops': ops}
 
+def gen_int_case(rng):
+    """integer-typed storage (a MatrixArray built from an integer array): invert / dot / copy must still be the per-matrix operations"""
+    n = rng.choice([1, 2, 3, 4]); L = rng.choice([1, 2, 3, 5])
+    sp = rng.choice(['R', 'F', 'N'])
+    idata = [float(3 if (q // n) % n == q % n else (q * 7 + L) % 2) for q in range(L * n * n)]
+    ops = [{'op': 'new', 'L': L, 'n': n, 'sp': sp, 'data': idata, 'intdata': True, 'zeros_then_fill': False},
+           {'op': 'new', 'L': L, 'n': n, 'sp': sp, 'data': rnd_matrix(rng, L, n), 'zeros_then_fill': False}]
+    for _ in range(rng.randint(1, 3)):
+        k = rng.choice(['invert', 'invert', 'dot', 'copy', 'binop'])
+        if k == 'invert': ops.append({'op': 'invert', 'k': 0, 'inplace': False})
+        elif k == 'dot': ops.append({'op': 'dot', 'k1': rng.choice([0, 1]), 'k2': rng.choice([0, 1]), 'inplace': False, 'operator': rng.random() < 0.5})
+        elif k == 'copy': ops.append({'op': 'copy', 'k': 0})
+        else: ops.append({'op': 'binop', 'f': rng.choice(['add', 'mul', 'sub']), 'k': 0, 'rhs': ['scalar', rng.choice([0.5, 2.5])], 'inplace': False})
+    if rng.random() < 0.5: ops.append({'op': 'invert', 'k': 0, 'inplace': True})
+    return {'ops': ops}
+
+def gen_shortleft_case(rng):
+    """the short operand on the LEFT (rho.pair * H): out of place the result is the broadcast over the grid, in place numpy refuses"""
+    n = rng.choice([1, 2, 3]); L = rng.choice([2, 3, 5, 8])
+    spL = rng.choice(['R', 'F', 'N']); spS = rng.choice(['N', 'N', spL])
+    ops = [{'op': 'new', 'L': 1, 'n': n, 'sp': spS, 'data': rnd_matrix(rng, 1, n), 'zeros_then_fill': False},
+           {'op': 'new', 'L': L, 'n': n, 'sp': spL, 'data': rnd_matrix(rng, L, n), 'zeros_then_fill': False}]
+    for _ in range(rng.randint(1, 3)):
+        kind = rng.choice(['obj', 'pp', 'full'])
+        rhs = ['obj', 1] if kind == 'obj' else (['pp', [round(rng.uniform(0.5, 2.0), 4) for _ in range(L)]] if kind == 'pp' else ['full', [round(rng.uniform(0.5, 2.0), 4) for _ in range(L * n * n)]])
+        ops.append({'op': 'binop', 'f': rng.choice(['add', 'sub', 'mul', 'div']), 'k': 0, 'rhs': rhs, 'inplace': rng.random() < 0.3, 'shortleft': True})
+    return {'ops': ops}
+
+def gen_tinydiv_case(rng):
+    """division by (and of) very small but non-zero numbers (pair densities of dilute species are ~1e-12): no clamping, no floor"""
+    n = rng.choice([1, 2, 3]); L = rng.choice([1, 2, 4])
+    sc = 10 ** rng.uniform(-14, -9)
+    ops = [{'op': 'new', 'L': L, 'n': n, 'sp': 'F', 'data': rnd_matrix(rng, L, n), 'zeros_then_fill': False},
+           {'op': 'new', 'L': 1, 'n': n, 'sp': 'N', 'data': [abs(x) * sc + sc for x in rnd_matrix(rng, 1, n)], 'zeros_then_fill': False},
+           {'op': 'new', 'L': L, 'n': n, 'sp': 'F', 'data': [x * sc for x in rnd_matrix(rng, L, n)], 'zeros_then_fill': False}]
+    ops.append({'op': 'binop', 'f': 'div', 'k': 0, 'rhs': ['obj', 1], 'inplace': rng.random() < 0.5})
+    ops.append({'op': 'binop', 'f': 'div', 'k': 2, 'rhs': rng.choice([['obj', 1], ['scalar', sc], ['pm', [sc * (1 + q) for q in range(n * n)]]]), 'inplace': rng.random() < 0.5})
+    ops.append({'op': 'binop', 'f': 'mul', 'k': 0, 'rhs': ['obj', 1], 'inplace': False})
+    return {'ops': ops}
+
 def gen_identity_case(rng):
     """the way PRISM.cost uses it: an IdentityMatrixArray that is changed (in place or not) and then inverted"""
     n = rng.choice([1, 2, 3, 4]); L = rng.choice([1, 2, 3, 5, 8])
@@ -260,7 +302,7 @@ def gen_identity_case(rng):
 def generate(ctx):
     max_ops = ctx.n(10, 30); maxL = ctx.n(16, 64)
     for q in range(ctx.n(250, 3000)):
-        c = gen_identity_case(ctx.rng) if q % 6 == 5 else gen_case(ctx.rng, max_ops, maxL)
+        c = gen_identity_case(ctx.rng) if q % 6 == 5 else (gen_int_case(ctx.rng) if q % 12 == 3 else (gen_shortleft_case(ctx.rng) if q % 12 == 9 else (gen_tinydiv_case(ctx.rng) if q % 12 == 1 else gen_case(ctx.rng, max_ops, maxL))))
         kinds = [o['op'] for o in c['ops']]
         nontriv = len(c['ops']) >= 5 and any(o.get('inplace') for o in c['ops'])
         tags = ['rank=%d' % c['ops'][0]['n']]
